@@ -145,6 +145,7 @@ pub fn run(ctx: &Ctx) -> Report {
     rep.assumptions = vec!["cache buffers are 8-byte aligned".into(), "domain: non-empty names, numbers < 2^32-1".into()];
     let n = ctx.cases(30_000, 400_000);
     rep.run_stage("ast", || map_case(&cfg()), n, check_case);
+    rep.run_stage("tall", || tall_case(&cfg()), ctx.cases(60, 800), check_case);
     let corpus = corpus_ast_cases(12, 50, 6, ctx);
     rep.run_enum("corpus", &corpus, check_corpus);
     rep
@@ -153,7 +154,7 @@ pub fn run(ctx: &Ctx) -> Report {
 pub fn replay(stage: &str, case: &Value) -> Check {
     let mut st = Stats::new();
     match stage {
-        "ast" => check_case(&serde_json::from_value(case.clone()).map_err(|e| Fail::new("harness-replay", e.to_string()))?, &mut st),
+        "ast" | "tall" => check_case(&serde_json::from_value(case.clone()).map_err(|e| Fail::new("harness-replay", e.to_string()))?, &mut st),
         "corpus" => check_corpus(&serde_json::from_value(case.clone()).map_err(|e| Fail::new("harness-replay", e.to_string()))?, &mut st),
         _ => Err(Fail::new("harness-replay", format!("unknown stage {stage}"))),
     }
